@@ -12,7 +12,9 @@
 (* (bound-1, bound, bound+1, huge): enum selector vs number of symbols,     *)
 (* union selector vs number of members (and negative), record arity vs     *)
 (* number of fields, map parity, set order / duplicates, an element that   *)
-(* overruns its container.                                                 *)
+(* overruns its container, and the width of a fixed-width primitive (bool  *)
+(* 1, float16/32/64 2/4/8, ip 4|16, net 8|32 bytes; Validate's checkWidth   *)
+(* since 80d4082b3) at width-1, width, width+1.                            *)
 (*                                                                         *)
 (* TLC evaluates Consistent on every (type, body) pair and exports the     *)
 (* table; the harness encodes each pair, asks the real zed.Value.Validate  *)
@@ -33,8 +35,20 @@ Arr(e)   == [k |-> "arr", e |-> e]
 SetOf(e) == [k |-> "set", e |-> e]
 MapOf(a, b) == [k |-> "map", key |-> a, val |-> b]
 
+\* fixed-width primitives: ws = the legal body lengths in bytes
+Fx(name, ws) == [k |-> "fixed", name |-> name, ws |-> ws]
+Bool == Fx("bool", <<1>>)
+F16  == Fx("float16", <<2>>)
+F32  == Fx("float32", <<4>>)
+F64  == Fx("float64", <<8>>)
+IPt  == Fx("ip", <<4, 16>>)
+Net  == Fx("net", <<8, 32>>)
+Widths(T) == {T.ws[i] : i \in 1..Len(T.ws)}
+
 E2 == En(2)
 Types == << E2, En(1), En(3),
+            Bool, F16, F32, F64, IPt, Net,
+            Rec(<<I, IPt>>), Arr(F64), Un(<<I, Bool>>), MapOf(IPt, Net), SetOf(Bool), SetOf(E2), SetOf(Rec(<<E2>>)),
             Rec(<<I, E2>>), Un(<<I, E2>>), Arr(E2), SetOf(I), MapOf(I, E2),
             Rec(<<Un(<<I, E2>>)>>), Arr(Rec(<<E2>>)), Un(<<E2, Arr(E2)>>), MapOf(I, Un(<<I, E2>>)),
             Un(<<I, E2, En(3)>>) >>
@@ -42,6 +56,7 @@ Types == << E2, En(1), En(3),
 \* ----------------------------------------------------------------- bodies
 Null      == [k |-> "null"]
 Leaf(n)   == [k |-> "leaf", n |-> n]          \* a scalar / selector with integer value n
+Raw(n)    == [k |-> "bytes", len |-> n]       \* a primitive body of n bytes
 Cont(es)  == [k |-> "cont", es |-> es, over |-> FALSE]
 Over(es)  == [k |-> "cont", es |-> es, over |-> TRUE]   \* the last element's tag claims more bytes than the container holds
 
@@ -51,12 +66,13 @@ RECURSIVE Consistent(_, _), Why(_, _)
 AllIdx(es, P(_)) == \A i \in 1..Len(es) : P(i)
 
 \* rank of a set element of type int in the byte order of its encoding (null < 0 < 1 < 2 ...)
-Rank(e) == IF e.k = "null" THEN -1 ELSE e.n
+Rank(e) == IF e.k = "null" THEN -1 ELSE IF e.k = "leaf" THEN e.n ELSE 0
 
 Consistent(v, T) ==
   IF v.k = "null" THEN TRUE
   ELSE CASE T.k = "int"  -> v.k = "leaf"
          [] T.k = "enum" -> v.k = "leaf" /\ v.n >= 0 /\ v.n < T.n
+         [] T.k = "fixed" -> v.k = "bytes" /\ v.len \in Widths(T)
          [] T.k = "rec"  -> /\ v.k = "cont" /\ ~v.over
                             /\ Len(v.es) = Len(T.f)
                             /\ \A i \in 1..Len(v.es) : Consistent(v.es[i], T.f[i])
@@ -80,6 +96,7 @@ Consistent(v, T) ==
 Why(v, T) ==
   IF Consistent(v, T) THEN "ok"
   ELSE CASE T.k = "enum" -> "enum-selector"
+         [] T.k = "fixed" -> "width"
          [] T.k = "int"  -> "scalar"
          [] v.k # "cont" -> "not-a-container"
          [] v.over       -> "container-encoding"
@@ -102,6 +119,7 @@ RECURSIVE Gen(_), Few(_)
 Few(T) ==
   CASE T.k = "int"  -> {Null, Leaf(1)}
     [] T.k = "enum" -> {Leaf(T.n - 1), Leaf(T.n), Leaf(T.n + 1)}
+    [] T.k = "fixed" -> {Raw(T.ws[1]), Raw(T.ws[1] - 1), Raw(T.ws[Len(T.ws)] + 1)}
     [] T.k = "rec"  -> {Cont([i \in 1..Len(T.f) |-> Leaf(0)]), Cont([i \in 1..(Len(T.f) + 1) |-> Leaf(0)])}
     [] T.k = "arr"  -> IF T.e.k = "enum" THEN {Cont(<<>>), Cont(<<Leaf(T.e.n - 1)>>), Cont(<<Leaf(T.e.n)>>)} ELSE {Cont(<<>>)}
     [] T.k = "union" -> {Cont(<<Leaf(0), Leaf(1)>>), Cont(<<Leaf(Len(T.m) - 1), Leaf(1)>>), Cont(<<Leaf(Len(T.m)), Leaf(1)>>)}
@@ -113,6 +131,7 @@ Gen(T) ==
   {Null} \cup
   CASE T.k = "int"  -> {Leaf(1)}
     [] T.k = "enum" -> {Leaf(i) : i \in 0..(T.n + 1)} \cup {Leaf(Huge)}
+    [] T.k = "fixed" -> {Raw(0)} \cup UNION {{Raw(w - 1), Raw(w), Raw(w + 1)} : w \in Widths(T)}
     [] T.k = "rec"  ->
          LET k == Len(T.f)
              full == {es \in Seqs(UNION {Few(T.f[i]) : i \in 1..k}, k) : \A i \in 1..k : es[i] \in Few(T.f[i])}
@@ -122,8 +141,10 @@ Gen(T) ==
             \cup {Over(es) : es \in full}
     [] T.k = "arr"  -> {Cont(es) : es \in UNION {Seqs(Few(T.e), n) : n \in 0..2}}
                        \cup {Over(es) : es \in Seqs(Few(T.e), 1)}
-    [] T.k = "set"  -> {Cont(es) : es \in UNION {Seqs({Null, Leaf(0), Leaf(1), Leaf(2)}, n) : n \in 0..2}}
-                       \cup {Cont(<<Leaf(0), Leaf(1), Leaf(1)>>), Cont(<<Leaf(0), Leaf(1), Leaf(2)>>), Over(<<Leaf(1)>>)}
+    [] T.k = "set"  -> IF T.e.k = "int"
+                       THEN {Cont(es) : es \in UNION {Seqs({Null, Leaf(0), Leaf(1), Leaf(2)}, n) : n \in 0..2}}
+                            \cup {Cont(<<Leaf(0), Leaf(1), Leaf(1)>>), Cont(<<Leaf(0), Leaf(1), Leaf(2)>>), Over(<<Leaf(1)>>)}
+                       ELSE {Cont(<<>>)} \cup {Cont(<<e>>) : e \in Few(T.e)}      \* one element: order is not at stake
     [] T.k = "map"  -> {Cont(es) : es \in UNION {{s \in Seqs(Few(T.key) \cup Few(T.val), n) :
                                                      \A i \in 1..n : s[i] \in (IF i % 2 = 1 THEN Few(T.key) ELSE Few(T.val))}
                                                   : n \in 0..3}}
@@ -148,6 +169,9 @@ ASSUME LET U == Un(<<I, E2>>) IN
 ASSUME ~Consistent(Cont(<<Leaf(1), Leaf(0), Leaf(0)>>), Rec(<<I, E2>>)) /\ ~Consistent(Cont(<<Leaf(1)>>), Rec(<<I, E2>>))
 ASSUME ~Consistent(Cont(<<Leaf(1), Leaf(1)>>), SetOf(I)) /\ ~Consistent(Cont(<<Leaf(2), Leaf(1)>>), SetOf(I))
        /\ Consistent(Cont(<<Null, Leaf(0)>>), SetOf(I))
+ASSUME Consistent(Raw(4), IPt) /\ Consistent(Raw(16), IPt) /\ ~Consistent(Raw(5), IPt) /\ ~Consistent(Raw(15), IPt)
+       /\ ~Consistent(Raw(0), Bool) /\ Consistent(Raw(1), Bool) /\ ~Consistent(Raw(2), Bool) /\ Consistent(Null, Bool)
+ASSUME ~Consistent(Cont(<<Leaf(2)>>), SetOf(E2)) /\ Consistent(Cont(<<Leaf(1)>>), SetOf(E2))
 ASSUME \A r \in Rows : (r.why = "ok") = r.consistent
 ASSUME OutFile = "" \/ ndJsonSerialize(OutFile, SetToSeq(Rows))
 ASSUME PrintT(<<"rows", Cardinality(Rows), Cardinality({r \in Rows : ~r.consistent})>>)
